@@ -9,7 +9,7 @@ ones kani-driver 0.68 runs (`cargo kani -v`), with CBMC's plain-text UI instead 
     goto-instrument --add-library --no-malloc-may-fail
     goto-instrument --generate-function-body-options assert-false-assume-false --generate-function-body '.*' --drop-unused-functions
     goto-instrument --ensure-one-backedge-per-target
-    cbmc --no-malloc-may-fail --no-undefined-shift-check --no-signed-overflow-check --nan-check
+    cbmc --no-malloc-may-fail --no-undefined-shift-check --no-signed-overflow-check   (kani-driver also passes --nan-check: see CBMC_FLAGS)
          --no-self-loops-to-assumptions --no-pointer-primitive-check --object-bits 16 --unwind N
          (--sat-solver cadical | --external-sat-solver kissat) --slice-formula
 
@@ -28,7 +28,11 @@ KANI_ENV = {
 }
 KANI_HOME = os.path.expanduser("~/.kani/kani-0.68.0")
 KANI_LIB_C = os.path.join(KANI_HOME, "library", "kani", "kani_lib.c")
-CBMC_FLAGS = ["--no-malloc-may-fail", "--no-undefined-shift-check", "--no-signed-overflow-check", "--nan-check",
+# `--nan-check` (which kani-driver passes) is NOT passed: it makes CBMC report every float operation that can produce NaN (inf - inf,
+# 0 * inf, 0 / 0) as a failed check.  A NaN result is what IEEE-754 - and property C01 - prescribe, Rust does not panic on it, and the
+# harnesses compare results with the operator's own NaN-aware oracle; with the check on, every f32/f64 arithmetic harness over all bit
+# patterns raised a false alarm ("NaN on +").
+CBMC_FLAGS = ["--no-malloc-may-fail", "--no-undefined-shift-check", "--no-signed-overflow-check",
               "--no-self-loops-to-assumptions", "--no-pointer-primitive-check", "--object-bits", "16"]
 
 # a property id is `<function>.<class>.<n>`; the function part may itself contain brackets (`<usize as SliceIndex<[T]>>::index`),
